@@ -26,7 +26,8 @@
 (***************************************************************************)
 EXTENDS Fs, SequencesExt, Json, IOUtils
 
-CONSTANTS Depth
+CONSTANTS Depth,       \* TLC enumerates every call sequence up to this length (history in the state)
+          EmitDepth    \* the emitted graph predicts every call sequence up to this length
 
 VARIABLES ini, st, hist, lastok, prev
 vars == <<ini, st, hist, lastok, prev>>
@@ -89,23 +90,26 @@ InvLaws == Len(hist) < Depth =>
 RECURSIVE ReachN(_, _)
 ReachN(S, n) == IF n = 0 THEN S ELSE ReachN(S \cup {Step(s, c).st : s \in S, c \in Calls}, n - 1)
 InitSet == {Inits[i] : i \in 1..Len(Inits)}
-Inner == SetToSeq(ReachN(InitSet, Depth - 1))          \* trees from which a call is still made
+Inner == SetToSeq(ReachN(InitSet, EmitDepth - 1))          \* trees from which a call is still made
 CallSeq == SetToSeq(Calls)
 PathText(path) == IF path = <<>> THEN "" ELSE IF Len(path) = 1 THEN path[1] ELSE path[1] \o "/" \o path[2]
 Out == IOEnv.VERIF_OUT
 
 Emit ==
+  LET inner == Inner            \* bound once: TLC re-evaluates a recursive constant definition per use
+      calls == CallSeq
+  IN
   /\ TLCGet("stats").distinct > 0
   /\ ndJsonSerialize(Out \o "/fs_calls.ndjson",
-        [i \in 1..Len(CallSeq) |-> [i |-> i, f |-> CallSeq[i].f, p |-> PathText(CallSeq[i].p),
-                                    q |-> PathText(CallSeq[i].q), c |-> CallSeq[i].c]])
+        [i \in 1..Len(calls) |-> [i |-> i, f |-> calls[i].f, p |-> PathText(calls[i].p),
+                                  q |-> PathText(calls[i].q), c |-> calls[i].c]])
   /\ ndJsonSerialize(Out \o "/fs_inits.ndjson", [i \in 1..Len(Inits) |-> [i |-> i, s |-> Flatten(Inits[i], "")]])
   /\ ndJsonSerialize(Out \o "/fs_graph.ndjson",
-        [i \in 1..Len(Inner) |->
-           [s |-> Flatten(Inner[i], ""),
-            next |-> [j \in 1..Len(CallSeq) |->
-                        LET r == Step(Inner[i], CallSeq[j]) IN
+        [i \in 1..Len(inner) |->
+           [s |-> Flatten(inner[i], ""),
+            next |-> [j \in 1..Len(calls) |->
+                        LET r == Step(inner[i], calls[j]) IN
                         IF r.ok THEN [ok |-> 1, ret |-> r.ret, t |-> Flatten(r.st, "")]
                         ELSE [ok |-> 0]]]])
-  /\ PrintT(<<"FS", Len(Inits), Len(CallSeq), Len(Inner), Depth>>)
+  /\ PrintT(<<"FS", Len(Inits), Len(calls), Len(inner), Depth, EmitDepth>>)
 =============================================================================
